@@ -296,8 +296,8 @@ func reflectBase(r asset.Repository) string {
 }
 
 func c10(ctx *run.Ctx) {
-	nhist := ctx.Pick(400, 3000)
-	nops := ctx.Pick(12, 30)
+	nhist := ctx.Pick(400, 20000)
+	nops := ctx.Pick(12, 40)
 	per := 10
 	for b := 0; b < nhist/per; b++ {
 		for _, kind := range repoKinds {
